@@ -243,6 +243,11 @@ def _anyall(is_all):
         if isinstance(v, VSeq):
             k = z3.Int(fresh_name('any_k'))
             rng = z3.And(0 <= k, k < slen(v.t))
+            if v.elem == 'byte':
+                # ground instances of the isb axiom at the first and last index: they put the terms v[0], v[len-1]
+                # into the solver's term set, so that the quantified result below can be instantiated there
+                for ix in (z3.IntVal(0), slen(v.t) - 1):
+                    st.assume(z3.Implies(z3.And(0 <= ix, ix < slen(v.t)), z3.And(0 <= sat(v.t, ix), sat(v.t, ix) <= 255)))
             if is_all:
                 return _out(st, VBool(z3.ForAll([k], z3.Implies(rng, sat(v.t, k) != 0))))
             return _out(st, VBool(z3.Exists([k], z3.And(rng, sat(v.t, k) != 0))))
